@@ -21,6 +21,18 @@ MAIN_DLCIS = [1, 2, 3, 4, 5, 9, 10, 31, 32, 33, 64, 93, 94, 95, 124, 127]
 FINDING_DLCIS = [0, 4, 5, 125, 126]
 
 
+def build_target(bd):
+	""" The non-HOST_BUILD branch of sercomm.c (256-octet receive buffer), IRQ macros and UART stubbed. """
+	st = cbuild.firmware_staging(bd)
+	return cbuild.compile_link(bd, "sercomm_drv_target",
+		[os.path.join(cbuild.CDIR, "drivers/sercomm_drv.c"),
+		 os.path.join(cbuild.FW, "comm/sercomm.c"),
+		 os.path.join(cbuild.LIBOSMO, "src/msgb.c"),
+		 os.path.join(cbuild.LIBOSMO, "src/talloc.c")],
+		includes = [st, os.path.join(cbuild.LIBOSMO, "include"), cbuild.libosmocore_config(bd)],
+		defines = ["TARGET_VARIANT"])
+
+
 def build(tag):
 	bd = cbuild.BuildDir(tag)
 	binary = cbuild.compile_link(bd, "sercomm_drv",
@@ -42,7 +54,8 @@ def unhex(s):
 	return b"" if s == "-" else bytes.fromhex(s)
 
 
-def rand_payload(r, maxlen = RXBUF - 1):
+def rand_payload(r, maxlen = None):
+	maxlen = RXBUF - 1 if maxlen is None else min(maxlen, RXBUF - 1)
 	k = r.random()
 	if k < 0.08:
 		n = 0
@@ -90,7 +103,7 @@ def gen_case(r, dlcis, finding = False):
 		if k < 0.5:
 			for _ in range(r.choice((1, 1, 2, 3, 6))):
 				d = r.choice(few)
-				ops.append(("S", d, rand_payload(r, 200 if r.random() < .8 else RXBUF - 1)))
+				ops.append(("S", d, rand_payload(r, 200 if r.random() < .8 else None)))
 				queued += 1
 		elif k < 0.8:
 			ops.append(("P", r.choice((1, 2, 3, 7, 50, 300, 5000))))
@@ -346,25 +359,38 @@ def run(ctx):
 		"7e/7d/00/5e/5d/20 and the length boundaries, pulls of 1..5000 octets looped octet by octet into the receiver, flag-free noise "
 		"and over-long frames (2048..6144 octets) injected between frames, each case ending with two plain frames; distinct = distinct "
 		"scripts by hash; all non-trivial")
-	ctx.assume("HOST_BUILD variant of sercomm.c (2048-octet receive buffer); interleavings are those of calls, not of target interrupts")
+	ctx.assume("both branches of sercomm.c are run on the host: HOST_BUILD (2048-octet receive buffer) and the target branch (256 octets) with the IRQ lock macros and the UART stubbed; interleavings are those of calls, not of target interrupts")
+	global RXBUF
 	bd, binary = build("c06")
 	try:
 		r = ctx.rng("c06")
-		total = ctx.scale(2500, 300000)
-		done = 0
+		try:
+			target_binary = build_target(bd)
+		except cbuild.BuildFailed as e:
+			target_binary = None
+			ctx.count("target_variant_not_buildable")
+			ctx.extra["target_variant_build_log"] = e.log[-400:]
 		first = True
-		while done < total and not ctx.too_many() and ctx.time_left() > 0:
-			n = min(1000, total - done)
-			nf = max(1, n // 20)
-			cases = [gen_case(r, MAIN_DLCIS) for _ in range(n - nf)]
-			if first:
-				ctx.sample("script", render(0, cases[0]).decode()[:1500].split("\n"))
-				first = False
-			judge(ctx, binary, cases, MAIN_DLCIS, "main")
-			# DLCIs whose address octet needs escaping: kept apart (known finding)
-			fcases = [gen_case(r, FINDING_DLCIS, finding = True) for _ in range(nf)]
-			judge(ctx, binary, fcases, FINDING_DLCIS, "escaped-dlci")
-			done += n
+		for variant, vbin, share in (("host-2048", binary, 0.7), ("target-256", target_binary, 0.3)):
+			if vbin is None:
+				continue
+			RXBUF = 2048 if variant == "host-2048" else 256
+			total = int(ctx.scale(2500, 300000) * share)
+			done = 0
+			while done < total and not ctx.too_many() and ctx.time_left() > 0:
+				n = min(1000, total - done)
+				nf = max(1, n // 20)
+				cases = [gen_case(r, MAIN_DLCIS) for _ in range(n - nf)]
+				if first:
+					ctx.sample("script", render(0, cases[0]).decode()[:1500].split("\n"))
+					first = False
+				judge(ctx, vbin, cases, MAIN_DLCIS, "main/" + variant)
+				# DLCIs whose address octet needs escaping: kept apart (known finding)
+				fcases = [gen_case(r, FINDING_DLCIS, finding = True) for _ in range(nf)]
+				judge(ctx, vbin, fcases, FINDING_DLCIS, "escaped-dlci/" + variant)
+				done += n
+				ctx.count("cases:" + variant, n)
+		RXBUF = 2048
 		# echo DLCI
 		ec = echo_cases(r, ctx.scale(100, 2000))
 		scripts = [render(i, ops) for i, (_, ops) in enumerate(ec)]
@@ -393,6 +419,8 @@ def run(ctx):
 	ctx.require("escapes_of_7d", 50)
 	ctx.require("escapes_of_00", 50)
 	ctx.require("echo_cases", 20)
+	ctx.require("cases:host-2048", 100)
+	ctx.require("cases:target-256", 100)
 
 
 def replay(ctx, data):
@@ -401,8 +429,12 @@ def replay(ctx, data):
 	if "script" not in w:
 		ctx.inconclusive_because("known-finding witnesses carry no script; rerun the check with the same seed")
 		return
+	global RXBUF
 	bd, binary = build("c06r")
 	try:
+		if "target-256" in data["sub"]:
+			binary = build_target(bd)
+			RXBUF = 256
 		reg = w["registered"]
 		ops = []
 		for line in w["script"].splitlines():
